@@ -19,6 +19,10 @@ EXPLANATION = (
 def run(tier):
     cr = CheckRun("C17", tier, "other", EXPLANATION, "DESIGN §4 C17")
     cr.contracts(["contracts.c15"])  # name resolution inside inlined library bodies (parameter shadows an outer name)
+    from pyvc import guards
+    # each file is expanded at most once: the recursion shares ONE processed_files set (a copy forgets what siblings imported)
+    cr.ext_obligations.append(guards.call_passes_param(
+        "dsl_compiler/src/parsing/preprocessor.py::preprocess_imports", "preprocess_imports", 2, "processed_files", keyword="processed_files"))
     cr.ext_obligations.extend(library_obligations(60000 if tier == "quick" else 300000))
     cr.trusted.append("S3 (spec/facto_sem.py) as the meaning of the library text; spec/libdocs.py as the meaning of the documentation")
     progs = gen.c17_library_scope(tier)
